@@ -25,8 +25,8 @@ RULE = ('a case = generated graph history (as C07) + pack time + gc + mode; mode
 ASSUMPTIONS = ['crash model: prefix of the recorded operations across the five files in issue order; renames/removes atomic',
                'thread schedules (packer with concurrent committers/readers) are NOT explored: no deterministic scheduler was '
                'built; concurrency is covered only as far as commits before/after the pack go']
-BUDGET = {'quick': {'examples': 1200, 'workers': 8},
-          'thorough': {'examples': 2500, 'workers': 16}}
+BUDGET = {'quick': {'examples': 2500, 'workers': 8},
+          'thorough': {'examples': 25000, 'workers': 16}}
 
 
 def thread_strategy():
@@ -84,6 +84,7 @@ def execute_threads(case):
                 # the same after reopening the packed file
                 returned = [(d_[0], d_[1]) for _, _, k, d_ in tr.events if k == 'commit-ok' and d_[0]]
                 path = tr.db.storage._file_name
+                revs = tr.history()
                 tr.db.close()
                 fs = FileStorage(path, read_only=True)
                 try:
@@ -91,7 +92,7 @@ def execute_threads(case):
                 finally:
                     fs.close()
                 for tid, wrote in returned:
-                    if tid not in have:
+                    if tid not in have and not all(tr.droppable(revs, nme, tid) for nme in wrote):
                         out.fail((PROPERTY, 'threads', 'returned-commit-missing-after-reopen'),
                                  'the commit %r (%r) returned but is not in the reopened file' % (tid, wrote))
                         break
